@@ -360,6 +360,24 @@ where
             unsafe { memo.as_ref() }.value.is_some(),
         );
 
+        // Hook H10: everything the `publish` record says is read BEFORE the swap (loading
+        // `verified_at` is a scheduling point under shuttle; nothing may come between the swap and
+        // the record).
+        #[cfg(salsa_rs_salsa_verif)]
+        let publish_record = {
+            // SAFETY: the allocation was created above and is not yet shared.
+            let fresh = unsafe { memo.as_ref() };
+            (
+                fresh.header.verified_at.load().as_usize().to_string(),
+                fresh.header.revisions.changed_at.as_usize().to_string(),
+                match &fresh.value {
+                    Some(v) => crate::verif_proto::digest(v),
+                    None => String::from("-"),
+                },
+            )
+        };
+        #[cfg(salsa_rs_salsa_verif)]
+        let _order = crate::verif_proto::order_guard();
         if let Some(old_value) =
             self.insert_memo_into_table_for(zalsa, id, memo, memo_ingredient_index)
         {
@@ -371,6 +389,18 @@ where
             // SAFETY: Once the revision starts, there will be no outstanding borrows to the
             // memo contents, and so it will be safe to free.
             unsafe { self.deleted_entries.push(old_value) };
+        }
+        #[cfg(salsa_rs_salsa_verif)]
+        {
+            crate::verif_proto::record_fetch(&[
+                crate::verif_proto::P::S("publish"),
+                crate::verif_proto::P::T(crate::sync::thread::current().id()),
+                crate::verif_proto::P::K(self.database_key_index(id)),
+                crate::verif_proto::P::S(&publish_record.0),
+                crate::verif_proto::P::S(&publish_record.1),
+                crate::verif_proto::P::S(&publish_record.2),
+            ]);
+            drop(_order);
         }
         // SAFETY: memo has been inserted into the table
         unsafe { self.extend_memo_lifetime(memo.as_ref()) }
